@@ -65,6 +65,8 @@ def zoo_task(t):
                 continue  # BatchNorm offers no inverse in training mode
             if wrt == "params" and not any(True for _ in m.parameters()):
                 continue
+            if result == "sample_and_log_prob" and (not e.has("sample") or e.has("nonreparam") or (e.has("batch_coupled_train") and mode == "train")):
+                continue  # no sampler, or one that is not reparameterised by design (mixture components, Bernoulli)
             key = (mode, uc, hist, result, wrt)
             if key in done:
                 continue
@@ -84,7 +86,22 @@ def zoo_task(t):
 
             def loss_fn(xv, cv):
                 torch.manual_seed(1234)   # dropout masks (training mode) are part of the function under test
-                r = getattr(m, result)(xv, cv) if cv is not None else getattr(m, result)(xv)
+                if result == "sample_and_log_prob":
+                    # the noise stream is the harness's (double precision, the same at every evaluation):
+                    # what is differentiated is the map from parameters / context to samples and log-probs
+                    orig_randn = torch.randn
+
+                    def stream(*size, **kw):
+                        shp = size[0] if len(size) == 1 and isinstance(size[0], (tuple, list, torch.Size)) else size
+                        return orig_randn(*shp, generator=torch.Generator().manual_seed(4321), dtype=torch.float64)
+
+                    torch.randn = stream
+                    try:
+                        r = m.sample_and_log_prob(2, context=cv) if cv is not None else m.sample_and_log_prob(2)
+                    finally:
+                        torch.randn = orig_randn
+                else:
+                    r = getattr(m, result)(xv, cv) if cv is not None else getattr(m, result)(xv)
                 r = r if isinstance(r, (tuple, list)) else (r,)
                 tot = 0.0
                 for i, t_ in enumerate(r):
